@@ -436,3 +436,22 @@ Theorem interleaving_independent_two_blocked_streams :
     = [Events []; Events eA; Events eB].
 Proof. exact two_blocked. Qed.
 Print Assumptions interleaving_independent_two_blocked_streams.
+
+(* ... with UNIDIRECTIONAL deliveries in the schedule (control stream frames, push streams, WebTransport, QPACK decoder
+   stream, unknown types, and encoder-stream deliveries that unblock nothing: quiet): the events of every request /
+   response stream are still exactly what its own parser returns for its own deliveries, whatever is delivered in between
+   to other request streams and to unidirectional streams; hence two accepted schedules that deliver the same chunks to a
+   request stream in the same order return the same events for it. *)
+Theorem interleaving_projection_mixed : forall fx O tr c outs,
+  c_done c = false -> c_sent_end c = [] -> quiet O -> crun fx O c tr = Some outs ->
+  forall sid, is_uni sid = false ->
+  lrun fx O (c_client c) (fst (get_or_create c sid)) (proj sid tr) = Some (outs_of sid outs).
+Proof. exact interleave_projection_mixed. Qed.
+Print Assumptions interleaving_projection_mixed.
+
+Theorem interleaving_independent_mixed : forall fx O tr1 tr2 c outs1 outs2,
+  c_done c = false -> c_sent_end c = [] -> quiet O ->
+  crun fx O c tr1 = Some outs1 -> crun fx O c tr2 = Some outs2 ->
+  forall sid, is_uni sid = false -> proj sid tr1 = proj sid tr2 -> outs_of sid outs1 = outs_of sid outs2.
+Proof. exact interleave_independent_mixed. Qed.
+Print Assumptions interleaving_independent_mixed.
